@@ -19,7 +19,7 @@ namespace ScriggoV.LexCtx
 open ScriggoV ScriggoV.Lexer ScriggoV.Gen.LexTables ScriggoV.HtmlTok
 
 /-- one step from a related state whose reference state is not inside script / style content -/
-theorem step_noraw {U : Unicode} {text : Bytes} {n : Nat} (H : Hole text n) {s : CSt} (hlt : s.pos < n)
+theorem step_noraw {U : Unicode} {text : Bytes} {lo n : Nat} (H : Hole text lo n) {s : CSt} (hlt : s.pos < n)
     (hR : R text s (rs text s.pos)) (hnr : noRaw (rs text s.pos) = true) : StepOK U text n s := by
   rcases hR with ⟨h1, h2, h3⟩ | ⟨h1, h2, h3⟩ | ⟨h1, h2⟩ | ⟨k, m, h, _⟩ | ⟨k, m, h, _⟩
   · exact step_html H hlt h1 h2 h3
@@ -35,7 +35,7 @@ def notCss (r : RSt) : Bool :=
   | _ => true
 
 /-- one step from a related state whose reference state is not inside style content -/
-theorem step_nocss {U : Unicode} {text : Bytes} {n : Nat} (H : Hole text n) {s : CSt} (hlt : s.pos < n)
+theorem step_nocss {U : Unicode} {text : Bytes} {lo n : Nat} (H : Hole text lo n) {s : CSt} (hlt : s.pos < n)
     (hR : R text s (rs text s.pos)) (hnr : notCss (rs text s.pos) = true) : StepOK U text n s := by
   rcases hR with ⟨h1, h2, h3⟩ | ⟨h1, h2, h3⟩ | ⟨h1, h2⟩ | ⟨k, m, h, h4, h5, h6, h7, h8⟩ | ⟨k, m, h, _⟩
   · exact step_html H hlt h1 h2 h3
@@ -45,7 +45,7 @@ theorem step_nocss {U : Unicode} {text : Bytes} {n : Nat} (H : Hole text n) {s :
   · rw [h] at hnr; simp [notCss] at hnr
 
 /-- one step from a related state -/
-theorem step_all {U : Unicode} {text : Bytes} {n : Nat} (H : Hole text n) {s : CSt} (hlt : s.pos < n)
+theorem step_all {U : Unicode} {text : Bytes} {lo n : Nat} (H : Hole text lo n) {s : CSt} (hlt : s.pos < n)
     (hR : R text s (rs text s.pos)) : StepOK U text n s := by
   rcases hR with ⟨h1, h2, h3⟩ | ⟨h1, h2, h3⟩ | ⟨h1, h2⟩ | ⟨k, m, h, h4, h5, h6, h7, h8⟩ |
     ⟨k, m, h, h4, h5, h6, h7, h8, h9⟩
